@@ -278,6 +278,12 @@ def opsLea (mode : Mode) (addr len : Nat) (d : GReg) (mo : MemOp) : Res (List Op
   let src ← if a.bits > d.bits then Expr.mkExt .trun d.bits a else pure a
   pure [← regSet mode d src]
 
+/-- `setcc r8`: `operand_store(zext(8, cc_condition))` -/
+def opsSetcc (mode : Mode) (c : Nat) (d : GReg) : Res (List Op) := do
+  let cc ← ccExpr c
+  let z ← Expr.mkExt .zext 8 cc
+  pure [← regSet mode d z]
+
 def mkInstrs (addr : Nat) : Nat → List Op → List Instr
   | _, [] => []
   | i, op :: rest => { index := i, addr := some addr, op := op } :: mkInstrs addr (i + 1) rest
@@ -326,7 +332,10 @@ def liftIns (i : Ins) : Option (Res BTR) :=
   | [.reg d, .imm v bytes] =>
     if aluMnemonics.contains i.mnem ∧ 8 * bytes = d.bits then some (liftRI i.mode i.mnem i.addr i.len d v bytes) else none
   | [.reg d] =>
-    if unMnemonics.contains i.mnem then some (liftUn i.mode i.mnem i.addr i.len d) else none
+    if unMnemonics.contains i.mnem then some (liftUn i.mode i.mnem i.addr i.len d)
+    else match splitCc i.mnem with
+      | some ("set", c) => if d.bits = 8 then some (wrap i.addr i.len (opsSetcc i.mode c d)) else none
+      | _ => none
   | [.reg d, m@(.mem ..)] =>
     match memOp? i m with
     | some mo =>
